@@ -87,6 +87,12 @@ def _tpl(g, refs):
                 top.append([g.pick(PLAIN)])
                 grp = [top[-1]]
             tgt = g.pick(grp)
+            r2 = g.random()
+            if r2 < 0.3:
+                # the reference alone in its own parentheses inside an enclosing group (first / any position)
+                tgt.insert(0 if g.chance(0.6) else g.randrange(len(tgt) + 1), [tok] if g.chance(0.7) else [[tok]])
+                pos.append(where)
+                continue
             tgt.insert(g.randrange(len(tgt) + 1), tok)
             if g.chance(0.15) and len(tgt) > 1:
                 # a group that contains only the reference
